@@ -303,7 +303,7 @@ def low_storage_runge_kutta_crank_nicolson(
   G = tree_math.unwrap(equation.implicit_terms)
   G_inv = tree_math.unwrap(equation.implicit_inverse, vector_argnums=0)
 
-  if len(alphas) - 1 != len(betas) != len(gammas):
+  if len(alphas) - 1 != len(betas) or len(betas) != len(gammas):
     raise ValueError('number of RK coefficients does not match')
 
   @tree_math.wrap
